@@ -92,6 +92,20 @@ def noise(rng, n, kind):
         b = bytearray(noise(rng, max(n, 1), "marker_free"))
         b[0] = 0x55                      # second half of a marker, but nothing in front of it belongs to this run
         return bytes(b)
+    if kind == "packet_without_first_byte":
+        # a packet whose leading 0xAA was lost on the line (optionally cut short as well): 0x55 and the rest of a frame header,
+        # data, checksum - no marker anywhere in it
+        p = valid_packet(rng, n)[1:]
+        return p[:rng.choice([4, 5, 8, 19, 19, 19])]
+    if kind == "literal_tail":
+        # the tail of a byte string the code under test mentions literally and that begins with 0xAA (a frame header it
+        # knows, say), then marker-free noise
+        tails = [x[1:] for x in gen.harvested_byte_strings(2, 16) if x[:1] == b"\xaa" and len(x) > 1 and b"\xaa\x55" not in x[1:]] or [b"\x55\x01\x02\x01"]
+        t = rng.choice(sorted(tails))
+        rest = bytearray(noise(rng, max(n, 1), "marker_free"))
+        if t[-1:] == b"\xaa" and rest[0] == 0x55:
+            rest[0] = 0x54
+        return t + bytes(rest)
     raise ValueError(kind)
 
 
@@ -128,7 +142,8 @@ def build_stream(rng, n_segments, max_noise):
             if rng.random() < 0.12:
                 # a packet ending in 0xAA directly followed by noise starting with 0x55
                 segs.append(("V", valid_packet(rng, k, checksum=0xAA)))
-                segs.append(("N:starts_with_55", noise(rng, rng.choice([1, 2, 5, 30, 100]), "starts_with_55")))
+                nk = rng.choice(["starts_with_55", "starts_with_55", "packet_without_first_byte", "literal_tail"])
+                segs.append(("N:" + nk, noise(rng, rng.choice([1, 2, 5, 30, 100]), nk)))
             else:
                 segs.append(("V", valid_packet(rng, k)))
             k += 1
@@ -153,7 +168,7 @@ def build_stream(rng, n_segments, max_noise):
             cut = rng.randrange(2, 20)
             segs.append(("T", p[:cut]))
         else:
-            kind = rng.choice(["marker_free", "marker_free", "half_marker_end", "with_markers"])
+            kind = rng.choice(["marker_free", "marker_free", "half_marker_end", "with_markers", "packet_without_first_byte", "literal_tail"])
             n = rng.choice([1, 2, 3, 19, 20, 21, 99, 100, 101, rng.randint(1, max_noise)])
             segs.append(("N:" + kind, noise(rng, n, kind)))
     # always end with two valid packets so that recovery is observable
